@@ -79,7 +79,12 @@ func runC13(e *Env) {
 		"two-path operations (every method of *VirtualOS with two path arguments, found by reflection, and the builtins os.rename/os.symlink/cp) " +
 		"over nested, sibling and seeded mount layouts x working directories at and inside every mount x ordered PAIRS of a structured path pool " +
 		"(at/inside/above/beside every mount point, absolute and relative to the working directory, clean and unclean): a case is " +
-		"(layout, cwd, operation, path, path2), all non-trivial"
+		"(layout, cwd, operation, path, path2), all non-trivial; " +
+		"SESSIONS on one rooted local filesystem over a real tree (absolute base and relative spellings of it): 12-16 calls of all 15 methods whose " +
+		"arguments are host paths the filesystem handed out earlier in the session (MkdirTemp results, WalkDir callback paths, File.Name()) with a suffix " +
+		"(mostly as many '..' as lead to the directory above the base, then a name that exists there), literals built from the host base directory, or short literals: " +
+		"a quarter of the calls through a VirtualOS that mounts the filesystem at '/'; " +
+		"a case is (base spelling, where the referenced handed-out paths came from, the last three calls, the call and its route), all non-trivial"
 	maxSeg := 4
 	if !e.Quick {
 		maxSeg = 6
@@ -114,6 +119,7 @@ func runC13(e *Env) {
 	c13MountSessions(e)
 	c13TwoPath(e, paths)
 	c13LocalFS(e, paths)
+	c13Handed(e)
 }
 
 // 1. filepath.Clean / Join vs the model's cleanStr / join2 (ties the hand-written model
